@@ -1714,13 +1714,17 @@ class Tensor:
         # In Tensor._op, any tensor entering an op has its grad/view-info cleared
         # We must do this here up front since we need to consume information
         # about ``self``
+        _prior_state = (self._grad, self._view_grad, self._base)
         self.null_grad(_clear_view_info=True)
         if self._base is not None and not self._base._view_children:
             self._base = None
 
         if self._base is not None:
             # the base is about to be mutated through this view; its gradient is stale
+            _prior_base_grads = (self._base._grad, self._base._view_grad)
             self._base.null_grad()
+        else:
+            _prior_base_grads = None
 
         graph = _dup.DuplicatingGraph(self if self.base is None else self.base)
 
@@ -1772,6 +1776,10 @@ class Tensor:
                 )
         except Exception as e:
             graph.restore_old_graph()
+            # a failed update leaves the target as it was
+            self._grad, self._view_grad, self._base = _prior_state
+            if _prior_base_grads is not None and self._base is not None:
+                self._base._grad, self._base._view_grad = _prior_base_grads
             raise e
 
         placeholder_mutant_view._constant = inplace_target._constant
